@@ -72,6 +72,8 @@ def make(bootstrap=True, frozen=False):
         big: List[int] = Attr(default_factory=list)
         pw: int = 0
         scores: List[int] = []
+        src: int  # no default: deleting it while unset fails
+        dz: int = Attr(default=1, invalidated_by=["src"])
 
         def _prepare_pw(self, v):  # documented preparer: str -> int cast
             if isinstance(v, str):
@@ -115,7 +117,7 @@ ATTRS = {
     "K2": ["nums", "opts", "vals", "tags", "y", "extras", "flags", "marks"],
     "K3": ["inner", "inner2", "kids", "by_name", "y"],
     "K4": ["items", "bag", "lst", "y"],
-    "K5": ["x", "w", "z", "big", "pw", "scores"],
+    "K5": ["x", "w", "z", "big", "pw", "scores", "src", "dz"],
     "Base": ["x", "ys"],
     "Sub": ["x", "ys", "y"],
     "Plain": ["x", "ys", "y"],
@@ -130,7 +132,7 @@ DEFAULTS = {
     "K2": lambda: {"nums": [], "opts": {}, "vals": set(), "tags": ["t"], "y": 0},
     "K3": lambda: {"kids": [], "by_name": {}, "y": 0},  # inner: none; inner2: Inner() (handled by the model)
     "K4": lambda: {"lst": [], "y": 0},
-    "K5": lambda: {"x": 0, "w": 0, "z": 7, "big": [], "pw": 0, "scores": []},
+    "K5": lambda: {"x": 0, "w": 0, "z": 7, "big": [], "pw": 0, "scores": [], "dz": 1},
     "Base": lambda: {"x": 1, "ys": []},
     "Sub": lambda: {"x": 5, "ys": [], "y": 2},
     "Plain": lambda: {"x": 5, "ys": [9], "y": 2},
@@ -149,7 +151,7 @@ TYPES = {
     "K2": {"nums": List[int], "opts": Dict[str, int], "vals": Set[int], "tags": List[str], "y": int, "extras": List[int], "flags": Dict[str, int], "marks": Set[int]},
     "K3": {"inner": "Inner", "inner2": "Inner", "kids": ("list", "Inner"), "by_name": ("dict", str, "Inner"), "y": int},
     "K4": {"items": ("klist", "Item"), "bag": ("kset", "Item"), "lst": ("list", "Item"), "y": int},
-    "K5": {"x": int, "w": int, "z": int, "big": List[int], "pw": int, "scores": List[int]},
+    "K5": {"x": int, "w": int, "z": int, "big": List[int], "pw": int, "scores": List[int], "src": int, "dz": int},
     "Base": {"x": int, "ys": List[int]},
     "Sub": {"x": int, "ys": List[int], "y": int},
     "Plain": {"x": int, "ys": List[int], "y": int},
